@@ -12,7 +12,39 @@ struct F {
     uninit_ok: bool,
 }
 
-pub fn emit(built: &Built) -> String {
+/// Field names of a generated struct, read from the generated text. The glue must keep compiling when the
+/// generated interface lacks a field the definition calls for (that is a verdict for the engine, which
+/// then sees a removed value that is not handed back or an added field that is never supplied, not a
+/// reason to discard the definition).
+fn struct_fields(generated: &str, struct_name: &str) -> Option<Vec<String>> {
+    let mut lines = generated.lines();
+    let head = format!("pub struct {}", struct_name);
+    loop {
+        let l = lines.next()?;
+        let t = l.trim_start();
+        if t.starts_with(&head) && t[head.len()..].starts_with(|c: char| c == ' ' || c == '<' || c == '{' || c == ';') {
+            if t.ends_with(';') {
+                return Some(vec![]);
+            }
+            break;
+        }
+    }
+    let mut out = Vec::new();
+    for l in lines {
+        let t = l.trim();
+        if t.starts_with('}') {
+            break;
+        }
+        if let Some(rest) = t.strip_prefix("pub ") {
+            if let Some((name, _)) = rest.split_once(':') {
+                out.push(name.trim().to_string());
+            }
+        }
+    }
+    Some(out)
+}
+
+pub fn emit(built: &Built, generated: &str) -> String {
     let def = &built.definition;
     let plan = &built.plan;
     let variants: Vec<Vec<F>> = def
@@ -198,15 +230,23 @@ pub fn emit(built: &Built) -> String {
         for (form, uninit, out) in [("Full", false, false), ("Uninit", true, false), ("FullOut", false, true), ("UninitOut", true, true)] {
             l!("                Form::{} => {{", form);
             let mut names = Vec::new();
+            let in_name = if uninit { format!("UnpackedUninitRecordIn{}", next) } else { format!("UnpackedRecordIn{}", next) };
+            let in_fields = struct_fields(generated, &in_name);
             for f in plus.iter().filter(|f| !(uninit && f.uninit_ok)) {
+                // a field the generated container does not offer cannot be supplied (the engine reports it)
+                if in_fields.as_ref().map_or(false, |fs| !fs.contains(&f.name)) {
+                    continue;
+                }
                 l!("                    let {}: {} = src.make({});", f.name, f.ty, f.datum);
                 names.push(f.name.clone());
             }
-            let in_name = if uninit { format!("UnpackedUninitRecordIn{}", next) } else { format!("UnpackedRecordIn{}", next) };
             l!("                    let plus = {} {{ {} }};", in_name, names.join(", "));
+            let out_fields = struct_fields(generated, &format!("Record{}AndUnpackedOut", next));
+            // removed fields the generated result really hands back (the engine reports the others)
+            let minus: Vec<&&F> = minus.iter().filter(|f| out_fields.as_ref().map_or(true, |fs| fs.contains(&f.name))).collect();
             if out {
                 l!("                    let o = Record{}AndUnpackedOut::<CAP>::from((r, plus));", next);
-                l!("                    let Record{}AndUnpackedOut {{ record{} }} = o;", next, minus.iter().map(|f| format!(", {}", f.name)).collect::<String>());
+                l!("                    let Record{}AndUnpackedOut {{ record{}, .. }} = o;", next, minus.iter().map(|f| format!(", {}", f.name)).collect::<String>());
                 for f in &minus {
                     l!("                    if !skip[{}] {{ let ob = {}.obs(); simrt::alloc::harness(|| removed.push((src.tag, {}, ob))); }}", f.datum, f.name, f.datum);
                 }
@@ -333,7 +373,7 @@ pub fn emit_definition_module(built: &Built, generated: &str) -> String {
     s.push_str(generated);
     let _ = writeln!(s, "\n}}");
     let _ = writeln!(s, "pub mod glue {{");
-    s.push_str(&emit(built));
+    s.push_str(&emit(built, generated));
     let _ = writeln!(s, "}}");
     s
 }
